@@ -268,6 +268,10 @@ type matchedEntry struct {
 }
 
 func matchEntries(before, after []Entry) (ml []matchedEntry) {
+	ml = make([]matchedEntry, 0, len(after)+len(before))
+
+	// First pair every HEAD rule with an identical rule from before, so that
+	// a new rule cannot claim (by name) a rule that is still there unchanged.
 	for _, a := range after {
 		slog.Debug(
 			"Matching HEAD rule",
@@ -278,7 +282,6 @@ func matchEntries(before, after []Entry) (ml []matchedEntry) {
 
 		m := matchedEntry{after: a, hasAfter: true} // nolint: exhaustruct
 		beforeSwap := make([]Entry, 0, len(before))
-		var matches []Entry
 		var matched bool
 
 		for _, b := range before {
@@ -299,25 +302,30 @@ func matchEntries(before, after []Entry) (ml []matchedEntry) {
 		}
 		before = beforeSwap
 
-		if !matched {
-			before, matches = findRulesByName(before, a.Rule.Name(), a.Rule.Type())
-			switch len(matches) {
-			case 0:
-			case 1:
-				m.before = matches[0]
-				m.hasBefore = true
-				m.wasMoved = a.Path.Name != matches[0].Path.Name
-				slog.Debug("Found rule with same name on before & after")
-			default:
-				slog.Debug(
-					"Found multiple rules with same name on before & after",
-					slog.Int("matches", len(matches)),
-				)
-				before = append(before, matches...)
-			}
-		}
-
 		ml = append(ml, m)
+	}
+
+	// Then try to find what is left by name.
+	for i := range ml {
+		if ml[i].hasBefore {
+			continue
+		}
+		var matches []Entry
+		before, matches = findRulesByName(before, ml[i].after.Rule.Name(), ml[i].after.Rule.Type())
+		switch len(matches) {
+		case 0:
+		case 1:
+			ml[i].before = matches[0]
+			ml[i].hasBefore = true
+			ml[i].wasMoved = ml[i].after.Path.Name != matches[0].Path.Name
+			slog.Debug("Found rule with same name on before & after")
+		default:
+			slog.Debug(
+				"Found multiple rules with same name on before & after",
+				slog.Int("matches", len(matches)),
+			)
+			before = append(before, matches...)
+		}
 	}
 
 	for _, b := range before {
